@@ -31,10 +31,12 @@ def button_scripts() -> List[dict]:
     out = []
     for where in ("before", "looptop"):
         for handler in (True, False):
-            for uses in (0, 1, 2):
+            for uses in (0, 1, 2, 3):
                 for nb in (1, 2):
-                    if nb == 2 and (uses == 2 or not handler):
+                    if nb == 2 and (uses >= 2 or not handler):
                         continue
+                    if uses == 3 and where == "looptop":
+                        continue  # a helper that uses the button needs it declared before the helper (documented style)
                     defs = []
                     decls = []
                     body = []
@@ -49,9 +51,18 @@ def button_scripts() -> List[dict]:
                     for i in range(nb):
                         if uses >= 1:
                             body.append(f'mon.write(f"p{i}={{b{i}.is_pressed()}}")')
-                        if uses >= 2:
+                        if uses == 2:
                             body += [f"if b{i}.is_pressed():", f'    mon.write("q{i}=1")', "else:", f'    mon.write("q{i}=0")']
-                    if where == "before":
+                        if uses == 3:
+                            # is_pressed() inside helpers called later in the pass (after a wait, in a nested loop)
+                            defs += [f"def chk{i}():", f"    if b{i}.is_pressed():", f'        mon.write("q{i}=1")', "    else:", f'        mon.write("q{i}=0")',
+                                     f"def val{i}():", f"    return b{i}.is_pressed()"]
+                            body += ["sleep(5)", f"chk{i}()", "for k in range(2):", f'    mon.write(f"p{i}={{val{i}()}}")', "    sleep(1)", f"chk{i}()"]
+                    if uses == 3:
+                        # helpers that use a button are defined after its declaration; handlers before it
+                        hdefs = [ln for ln in defs if ln.startswith(("def hit", '    mon.write("click'))]
+                        src = common.script(decls + [ln for ln in defs if ln not in hdefs], body, prologue=PRO, defs=hdefs)
+                    elif where == "before":
                         src = common.script(decls, body, prologue=PRO, defs=defs)
                     else:
                         src = common.script([], decls + body, prologue=PRO, defs=defs)
@@ -148,6 +159,12 @@ POT_BODIES = [
     ["for i in range(2):", "    mon.write(pot.read())"],
     ["v = pot.read() / 4", "mon.write(v)"],
     ["k = 0", "while pot.read() < 600 and k < 3:", "    k += 1", "mon.write(k)"],
+    # one read() as the limit of a for loop is ONE analog read, whatever the body does
+    ["for i in range(pot.read() // 300):", "    mon.write(i)"],
+    ["n = 0", "for i in range(pot.read() % 4):", "    n += pot.read()", "mon.write(n)"],
+    ["for i in range(min(pot.read(), 3)):", "    mon.write(pot.read())"],
+    ["x = pot.read() if pot.read() > 500 else 0 - pot.read()", "mon.write(x)"],
+    ["lst = [pot.read(), pot.read()]", "mon.write(lst[0] - lst[1])"],
 ]
 
 
@@ -188,6 +205,18 @@ def gen_ultra(tier: str) -> Iterator[dict]:
                     yield {"id": f"U:{idx}", "space": "U", "src": US_SRC, "runs": chunk, "meta": {}}
                     idx += 1
                     chunk = []
+    # the millisecond counter is close to the top of its range / rolls over between two calls
+    small = [(p, a) for p in (0, 3, 9) for a in (0, 1, 59, 61)]
+    for hist in itertools.product(small, repeat=2):
+        for wrap in (1, 2, 5, 20, 40, 59, 60, 61, 62, 65, 90, 100, 121, 130, 150, 400):
+            pulses = []
+            for p, _ in hist:
+                pulses += list(ECHO_PATTERNS[p])
+            chunk.append({"passes": 2, "t0": 0, "wrap": wrap, "pulse": pulses + [0, 0, 0], "adv": [a for _, a in hist], "hist": [list(h) for h in hist]})
+            if len(chunk) >= 600:
+                yield {"id": f"U:{idx}", "space": "U", "src": US_SRC, "runs": chunk, "meta": {}}
+                idx += 1
+                chunk = []
     if chunk:
         yield {"id": f"U:{idx}", "space": "U", "src": US_SRC, "runs": chunk, "meta": {}}
 
@@ -200,6 +229,7 @@ def ultra_monitor(run, dr) -> Optional[str]:
         by_phase.setdefault(ev.phase, []).append(ev)
     prev_trigger_t: Optional[int] = None
     prev_end_t: Optional[int] = None
+    prev_counter: Optional[int] = None
     for k, (p, _adv) in enumerate(hist):
         evs = by_phase.get(k, [])
         pattern = ECHO_PATTERNS[p]
@@ -210,14 +240,18 @@ def ultra_monitor(run, dr) -> Optional[str]:
             return f"call {k}: {len(triggers)} triggers (more than three attempts)"
         if len(triggers) != want_attempts or len(pulses) != want_attempts:
             return f"call {k} with echoes {pattern}: {len(triggers)} triggers / {len(pulses)} echo waits, expected {want_attempts}"
-        # spacing
+        # spacing ("once the millisecond clock is running": the firmware reads the counter after every echo wait; a
+        # reading of exactly 0 - at start-up or at the instant of a roll-over - means "not running yet")
         for trig, pul in zip(triggers, pulses):
-            if prev_trigger_t is not None and prev_end_t is not None and prev_end_t > 0:
+            if prev_trigger_t is not None and prev_end_t is not None and prev_end_t > 0 and prev_counter != 0:
                 if trig.t - prev_trigger_t < 60:
                     return f"call {k}: sensor triggered at {trig.t} ms, {trig.t - prev_trigger_t} ms after the previous trigger at {prev_trigger_t} ms (clock running)"
             prev_trigger_t = trig.t
             us = int(pul.args[1])
             prev_end_t = pul.t + (us // 1000 if us > 0 else 30)
+            pul_pos = next(i for i, ev in enumerate(evs) if ev is pul)
+            after = [ev for i, ev in enumerate(evs) if i > pul_pos and ev.kind == "millis"]
+            prev_counter = int(after[0].args[0]) if after else None
         good = next((v for v in pattern if v > 0), None)
         if good is not None:
             want = good * 0.0343 / 2.0
